@@ -281,12 +281,13 @@ Fixpoint instr_starts (off : Z) (is : list minstr) : list Z :=
   match is with [] => [] | i :: r => off :: instr_starts (off + i_size i) r end.
 
 (* ------------------------------------------------------------------------------------------ *)
-(* Bytecode canonicalisation, as written:
+(* Bytecode canonicalisation, as written (casm_contract_class.rs l.551-565):
      let (_q, reminder) = big_int.magnitude().div_rem(&prime);
-     if big_int.is_negative() { &prime - reminder } else { reminder }                          *)
+     if big_int.is_negative() && !reminder.is_zero() { &prime - reminder } else { reminder }
+   (before /repo commit 5d200f2 the test was only is_negative(), which mapped -k*P to P) *)
 Definition canon (w : Z) : Z :=
   let r := Z.abs w mod P in
-  if w <? 0 then P - r else r.
+  if (w <? 0) && negb (r =? 0) then P - r else r.
 
 (* ------------------------------------------------------------------------------------------ *)
 (* Entry points                                                                                  *)
